@@ -220,7 +220,21 @@ func (g *gen) step() bool {
 	}
 	isList := func(p path) bool { _, ok := p.val.(*zn.ListV); return ok }
 	isDict := func(p path) bool { _, ok := p.val.(*zn.DictV); return ok }
-	switch g.pick(16, "action") {
+	switch g.pick(18, "action") {
+	case 16, 17: // a name bound by 得到: to what a method hands out (one of its inputs, as it is),
+		// or to the result of a method call on a value - a declaration like any other
+		if p, ok := pickPath("ysrc", nil); ok {
+			n := g.name()
+			if _, isL := p.val.(*zn.ListV); isL && g.pick(2, "yform") == 0 {
+				add(&zn.ExprStmt{E: &zn.MCall{Root: p.expr, Chain: []zn.Call{{Name: "后增", Args: []zn.Expr{g.scalar()}}}, Yield: n}})
+				g.labels["yield-name-after-method-call"] = true
+			} else {
+				add(&zn.ExprStmt{E: &zn.Call{Name: "原样", Args: []zn.Expr{p.expr}, Yield: n}})
+				g.labels["yield-name-bound-to-handed-out-input"] = true
+			}
+			g.copied[n] = p.root
+			g.consts[n] = true
+		}
 	case 0, 1: // declare from a literal
 		add(&zn.Let{Names: []string{g.name()}, E: g.literal(3)})
 	case 2, 3: // declare from a variable / element / property (copy)
@@ -496,6 +510,7 @@ func TestCopySemantics(t *testing.T) {
 			&zn.FuncDef{Name: "改", Params: []string{"表", "项"}, Body: []zn.Stmt{&zn.ExprStmt{E: mc(v("表"), "后增", v("项"))}, &zn.Return{E: v("表")}}},
 			&zn.FuncDef{Name: "改典", Params: []string{"典", "项"}, Body: []zn.Stmt{&zn.ExprStmt{E: mc(v("典"), "写入", &zn.Str{V: "k"}, v("项"))}, &zn.Return{E: v("典")}}},
 			&zn.FuncDef{Name: "增", Params: []string{"数", "项"}, Body: []zn.Stmt{&zn.ExprStmt{E: mc(v("数"), "自增", v("项"))}, &zn.Return{E: v("数")}}},
+			&zn.FuncDef{Name: "原样", Params: []string{"物"}, Body: []zn.Stmt{&zn.Return{E: v("物")}}},
 			&zn.FuncDef{Name: "新表", Body: []zn.Stmt{&zn.Return{E: &zn.ListLit{Items: []zn.Expr{num(7)}}}}},
 			&zn.Let{Names: []string{"V0"}, E: &zn.ListLit{Items: []zn.Expr{num(1), &zn.ListLit{Items: []zn.Expr{num(2), num(3)}}, &zn.DictLit{Keys: []string{"a"}, Vals: []zn.Expr{&zn.ListLit{Items: []zn.Expr{num(4)}}}}}}},
 		}}
